@@ -1,7 +1,149 @@
 import CogentModel.Json
-open CogentModel
+import CogentModel.Model.Optimiser
+open CogentModel CogentModel.Optimiser
 
-def handle (cmd : String) (_j : J) : Except String J :=
-  throw s!"unknown command {cmd}"
+/-- objective values: extended rationals -/
+inductive EY where
+  | negInf | fin (q : Rat) | posInf
+  deriving Inhabited, BEq
+
+def EY.lt : EY → EY → Bool
+  | .negInf, .negInf => false
+  | .negInf, _ => true
+  | .fin _, .negInf => false
+  | .fin a, .fin b => decide (a < b)
+  | .fin _, .posInf => true
+  | .posInf, _ => false
+
+def EY.isFin : EY → Bool
+  | .fin _ => true
+  | _ => false
+
+def EY.toJ : EY → J
+  | .negInf => J.str "-inf"
+  | .posInf => J.str "+inf"
+  | .fin q => J.ofRat q
+
+def parseEY (j : J) : Except String EY :=
+  match j with
+  | J.str "-inf" => pure .negInf
+  | J.str "+inf" => pure .posInf
+  | J.null => throw "null value"
+  | _ => do pure (.fin (← j.toRat))
+
+def parseRes (j : J) : Except String (Res EY) :=
+  match j with
+  | J.str "oob" => pure .oob
+  | J.str "arith" => pure .arith
+  | J.str "fatal" => pure .fatal
+  | J.str "nan" => pure .nan
+  | _ => do pure (.val (← parseEY j))
+
+def stopJ : Option Stop → J
+  | none => J.null
+  | some (.maxEvals n) => J.obj [("exc", J.str "MaximumEvaluationsReached"), ("n", J.num n)]
+  | some .fatal => J.obj [("exc", J.str "fatal")]
+
+/-- bound vectors: `null` = unbounded on that side -/
+def parseBound (dflt : EY) (j : J) : Except String EY :=
+  match j with
+  | J.null => pure dflt
+  | _ => parseEY j
+
+def allLe (a b : List EY) : Bool := (a.zip b).all (fun p => !(EY.lt p.2 p.1))
+
+def parseCell (j : J) : Except String Cell := do
+  match ← j.toList with
+  | [a, b] => pure ((← a.toNat), (← b.toNat))
+  | _ => throw "bad cell"
+
+def parseCoords (j : J) : Except String (Coords String) :=
+  j.toListOf (J.toPairOf J.toStr (J.toListOf parseCell))
+
+def errJ (e : MapErr) : J :=
+  J.obj [("err", J.str (match e with
+    | .assertion => "AssertionError" | .tie => "ValueError" | .noRef => "IndexError"))]
+
+def rulesJ (rs : List (String × Rat)) : J := J.arr (rs.map fun r => J.arr [J.str r.1, J.ofRat r.2])
+
+def handle (cmd : String) (j : J) : Except String J :=
+  match cmd with
+  | "maximise" => do
+    -- points are numbered; pts[i] = coordinates, res[i] = what the objective does there
+    let pts ← (← j.get "pts").toListOf (J.toListOf J.toRat)
+    let res ← (← j.get "res").toListOf parseRes
+    let n := pts.length
+    let lo ← match j.get? "lower" with
+      | some (J.arr l) => l.mapM (parseBound .negInf)
+      | _ => pure []
+    let hi ← match j.get? "upper" with
+      | some (J.arr l) => l.mapM (parseBound .posInf)
+      | _ => pure []
+    let bounded ← (← j.get "bounded").toBool
+    let coords (i : Nat) : List EY := (pts.getD i []).map EY.fin
+    let maxE ← match j.get? "max_evaluations" with
+      | some (J.num k) => pure (some k.toNat)
+      | _ => pure none
+    let c : Cfg Nat EY :=
+      { f := fun i => if i < n then res.getD i .fatal else .fatal,
+        inB := fun i => !bounded || (allLe lo (coords i) && allLe (coords i) hi),
+        gt := fun a b => EY.lt b a, fin := EY.isFin, negInf := .negInf, maxEvals := maxE }
+    let x0 ← (← j.get "x0").toNat
+    let qs ← (← j.get "qs").toListOf J.toNat
+    let r := maximise c x0 qs
+    let fin : J := match r.final with
+      | .valueError => J.obj [("kind", J.str "ValueError")]
+      | .raised e => J.obj [("kind", J.str "raised"), ("exc", stopJ (some e))]
+      | .noBest => J.obj [("kind", J.str "noBest")]
+      | .done fv x ev exc => J.obj [("kind", J.str "done"), ("fval", fv.toJ), ("x", J.num x),
+                                    ("evals", J.num ev), ("exc", stopJ exc)]
+    pure (J.obj [("final", fin), ("calls", J.arr (r.st.calls.reverse.map fun (i : Nat) => J.num i)),
+                 ("shown", J.arr (r.shown.map EY.toJ)), ("evals", J.num r.st.evals)])
+  | "clamp" => do
+    let xs ← (← j.get "x").toListOf J.toRat
+    let lo ← (← j.get "lower").toListOf (parseBound .negInf)
+    let hi ← (← j.get "upper").toListOf (parseBound .posInf)
+    let rtol ← (← j.get "rtol").toRat
+    let atol ← (← j.get "atol").toRat
+    -- numpy.allclose(a, b): |a - b| <= atol + rtol * |b|, per coordinate, exact rationals
+    let close (a b : EY) : Bool := match a, b with
+      | .fin p, .fin q => decide ((if p - q < 0 then q - p else p - q) ≤ atol + rtol * (if q < 0 then -q else q))
+      | _, _ => false
+    let v : List (Coord EY) := (xs.zip (lo.zip hi)).map fun t => { x := .fin t.1, lo := t.2.1, hi := t.2.2 }
+    let w := clampStart EY.lt close v
+    pure (J.obj [("x", J.arr (w.map fun c => c.x.toJ)), ("in_bounds", J.bool (inBounds EY.lt w))])
+  | "mapping" => do
+    let rich ← parseCoords (← j.get "rich")
+    let simple ← parseCoords (← j.get "simple")
+    let ref ← (← j.get "ref").toStr
+    match paramMapping rich simple with
+    | .error e => pure (errJ e)
+    | .ok m => pure (J.obj [("map", J.arr (m.map fun p => J.arr [J.str p.1, J.arr (p.2.map J.str)])),
+                            ("nested", J.bool (nestedSame ref rich simple))])
+  | "project" => do
+    let rich ← parseCoords (← j.get "rich")
+    let simple ← parseCoords (← j.get "simple")
+    let ref ← (← j.get "ref").toStr
+    let passNames ← (← j.get "pass").toListOf J.toStr
+    let rules ← (← j.get "rules").toListOf (J.toPairOf J.toStr J.toRat)
+    let same ← (← j.get "same").toBool
+    let pi ← (← j.get "pi").toListOf J.toRat
+    if rich.length < simple.length then pure (errJ .assertion) else
+    match chosenAll rich simple with
+    | .error e => pure (errJ e)
+    | .ok ch =>
+      let pass := fun n => passNames.contains n
+      if same then
+        let pr := projectSame ref pass rich ch rules
+        let cells := (cellsOf rich ++ cellsOf simple).eraseDups
+        let keep := rules.filter (fun r => !(r.1 == ref))
+        let agree := cells.all fun cell =>
+          cellRate (· * ·) (1 : Rat) rich pr cell == cellRate (· * ·) (1 : Rat) simple keep cell
+        pure (J.obj [("rules", rulesJ pr), ("rates_agree", J.bool agree)])
+      else
+        match projectNotSame (· * ·) (· / ·) (1 : Rat) (fun k => pi.getD k 0) ref pass rich ch rules with
+        | .error e => pure (errJ e)
+        | .ok pr => pure (J.obj [("rules", rulesJ pr)])
+  | _ => throw s!"unknown command {cmd}"
 
 def main : IO Unit := driverLoop handle
